@@ -1028,6 +1028,11 @@ func genCase(rng *vh.RNG) Case {
 		for k, n := 0, rng.Range(3, 10); k < n; k++ {
 			p.Ops = append(p.Ops, genOp(rng, &c, nslots, p.T, false))
 		}
+		// a held invocation that registers timers: half of the time the target has been RESTARTED just before, so that the timers
+		// are registered by (and fire into) an actor whose context, scheduler and mailbox have been through a restart
+		if (p.HK == "user" || p.HK == "local" || p.HK == "timer") && len(p.Pre) > 0 && p.T != 0 && rng.Chance(1, 2) {
+			c.Phases = append(c.Phases, Phase{K: "storm", Dwell: 300 + rng.Intn(300), Ops: []Op{{K: "fail", T: p.T, O: p.T, Dir: "restart", Busy: rng.Intn(4)}}})
+		}
 		c.Phases = append(c.Phases, p)
 	}
 	// let pending work and timers run before the system is shut down
